@@ -47,7 +47,14 @@ def run_case(name, path, meta, keep=False, only_property=None):
         if not keep:
             shutil.rmtree(sc, ignore_errors=True)
         return {"case": name, "ok": False, "reason": "patch does not apply to the current tree: " + r.stdout[-300:], "seconds": round(time.time() - t0, 1)}
-    env = dict(os.environ, TEOS_REPO=repo, VERIF_FACTS_CACHE=os.path.join(sc, "facts"), VERIF_OUT_DIR=os.path.join(sc, "out"))
+    # facts of a variant are kept across runs (keyed by the patch; extract.py still checks the source digest of the patched
+    # copy, so a change of /repo or of the patch re-extracts): the thorough tiers of different properties share them
+    import hashlib
+    with open(os.path.join(path, "patch.diff"), "rb") as fh:
+        vkey = hashlib.sha1(fh.read()).hexdigest()[:16]
+    vfacts = os.path.join(VERIF, ".cache", "vfacts", vkey)
+    os.makedirs(os.path.dirname(vfacts), exist_ok=True)
+    env = dict(os.environ, TEOS_REPO=repo, VERIF_FACTS_CACHE=vfacts, VERIF_OUT_DIR=os.path.join(sc, "out"))
     if meta.get("expect_silent"):
         props = [only_property] if only_property else ["all"]
         res = {"case": name, "ok": True, "missed": [], "hit": [], "props": props}
